@@ -59,8 +59,9 @@ def norm_trace(res, inst, settings):
     job = res["job"]
     rp = dict(inst.params)
     rp.update(job.get("run_params", {}))
+    replaying = bool(rp.get("replay"))
     try:
-        maxtries = int(float(rp.get("max_tries", 1)))
+        maxtries = int(float(rp.get("max_tries", 2 if replaying else 1)))
     except ValueError:
         maxtries = 1
     leaves = sorted({lf for fe in c["flat"].values() for lf in fe["leaves"] if c["tests"][lf]["copies"] and not c["tests"][lf]["clonesrc"]})
@@ -75,7 +76,7 @@ def norm_trace(res, inst, settings):
         "poolscope": str(rp.get("pool_scope", "own swarm cluster shared")).split(),
         "maxtries": maxtries,
         "maxconc": int(float(rp.get("max_concurrent_tries", maxtries))) if str(rp.get("max_concurrent_tries", "1")).lstrip("-").replace(".", "").isdigit() else maxtries,
-        "rerun": [s.upper() for s in str(rp.get("rerun_status", "")).replace(",", " ").split()] or ALL_STATUSES,
+        "rerun": [s.upper() for s in str(rp.get("rerun_status", "")).replace(",", " ").split()] or (["FAIL", "ERROR", "WARN"] if replaying else ALL_STATUSES),
         "stop": [s.upper() for s in str(rp.get("stop_status", "")).replace(",", " ").split()],
         "dry": str(rp.get("dry_run", "no")) == "yes",
         "overrun": bool(settings.get("overrun", False)),
